@@ -100,10 +100,11 @@ WHITELIST = [
     ("_apply_spans_concat_2", ["arr", "arr", "arr", "arr", "arr"] + ["int"] * 6),
     ("ordered_inner_map_result_size", ["arr", "arr"]),
     ("compare_arrays", ["arr", "arr"]),
+    ("safe_map_values", ["arr", "arr", "barr", "opt_int"]),
 ]
 
 LEAN_T = {"int": "Int", "bool": "Bool", "arr": "List Int", "barr": "List Bool", "opt_arr": "Option (List Int)",
-          "arr2": "List (List Int)"}
+          "arr2": "List (List Int)", "opt_int": "Option Int"}
 DEFAULT = {"int": "0", "bool": "false", "arr": "[]", "barr": "[]", "arr2": "[]"}
 ELEM = {"arr": "int", "barr": "bool", "arr2": "arr"}        # arr2: a 2-D integer array, passed as the list of its rows
 
@@ -221,8 +222,10 @@ class Kernel:
         self.ptypes = list(ptypes)
         self.body = rewrite_continue(drop_message_strings(strip_doc(fn.body)))
         self.rename()
-        self.env = {f"p{k}": ("arr" if t == "opt_arr" else t) for k, t in enumerate(ptypes)}
+        self.env = {f"p{k}": ({"opt_arr": "arr", "opt_int": "int"}.get(t, t)) for k, t in enumerate(ptypes)}
         self.opt = {f"p{k}" for k, t in enumerate(ptypes) if t == "opt_arr"}    # optional parameters (static)
+        # optional scalars (`x=None`, tested with `x is None` / `x is not None` anywhere): a value and a presence flag
+        self.optint = {f"p{k}" for k, t in enumerate(ptypes) if t == "opt_int"}
         self.loops = {}          # id(node) -> (k, has_break)
         self.number_loops()
         self.find_mutated()
@@ -369,6 +372,9 @@ class Kernel:
         if name in self.maybe_none:
             raise Unsupported(f"use of the optional parameter `{self.orig[name]}` before it is given a default")
         t = self.env[name]
+        if name in self.optint:
+            tmp = self.fresh()
+            return t, tmp, [(tmp, f"readOptE s.{name}_some s.{name} {lean_str(name)}")]
         if name in self.locals and name not in defined:
             self.read_unbound.add(name)
             if name in self.flagged:
@@ -425,6 +431,10 @@ class Kernel:
                         cond = f"if {xl} then .ok true else\n{ind(inner, 4)}"
                     x, b = tmp, bl + [(tmp, cond)]
             return "bool", x, b
+        if isinstance(n, ast.Compare) and len(n.ops) == 1 and isinstance(n.ops[0], (ast.Is, ast.IsNot)) and \
+                isinstance(n.left, ast.Name) and n.left.id in self.optint and is_none(n.comparators[0]):
+            flag = f"s.{n.left.id}_some"
+            return "bool", (f"(!{flag})" if isinstance(n.ops[0], ast.Is) else flag), []
         if isinstance(n, ast.Compare):
             operands = [n.left] + list(n.comparators)
             parts = [self.expr(o, defined) for o in operands]
@@ -925,7 +935,9 @@ class Kernel:
         fuel = self.has_while(self.body)
         fields = []
         for k, t in enumerate(self.ptypes):
-            fields.append(f"  p{k} : {LEAN_T['arr' if t == 'opt_arr' else t]}")
+            fields.append(f"  p{k} : {LEAN_T[{'opt_arr': 'arr', 'opt_int': 'int'}.get(t, t)]}")
+            if t == "opt_int":
+                fields.append(f"  p{k}_some : Bool")
         for v in self.locals:
             fields.append(f"  {v} : {LEAN_T[self.env[v]]}")
             if v in self.flagged:
@@ -943,7 +955,8 @@ class Kernel:
                 fields.append(f"  rv{j} : {LEAN_T[self.ret_types[j]]}")
         init = []
         for k, t in enumerate(self.ptypes):
-            init.append(f"p{k} := " + (f"p{k}.getD []" if t == "opt_arr" else f"p{k}"))
+            init.append(f"p{k} := " + (f"p{k}.getD []" if t == "opt_arr" else f"p{k}.getD 0, p{k}_some := p{k}.isSome"
+                                       if t == "opt_int" else f"p{k}"))
         for v in self.locals:
             init.append(f"{v} := {DEFAULT[self.env[v]]}")
             if v in self.flagged:
@@ -1004,7 +1017,7 @@ class Kernel:
     def dispatch_arm(self):
         n = len(self.ptypes)
         conv = {"int": "asInt?", "bool": "asBool?", "arr": "asArr?", "barr": "asBArr?", "opt_arr": "asOptArr?",
-                "arr2": "asArr2?"}
+                "arr2": "asArr2?", "opt_int": "asOptInt?"}
         mk = {"int": "Val.int", "bool": "Val.bool", "arr": "Val.arr", "barr": "Val.barr", "arr2": "Val.arr2"}
         pats = ", ".join(f"a{k}" for k in range(n))
         scrut = ", ".join(f"a{k}.{conv[t]}" for k, t in enumerate(self.ptypes))
